@@ -89,6 +89,9 @@ def oracle(ctx, script, real):
                     pend[j] = []        # power-off discards everything still queued - also on the children it switches off
         elif op[0] == "data" and e["obs"] == [2, 1]:
             d = op[2]
+            if not run[op[1]]:
+                ctx.oracle_fail("a powered-off transceiver accepted a burst from L1 (it must drop it: nothing may wait in the queue across a power cycle)",
+                                dict(trx=op[1], trx_defs=defs, ops=[SC.describe(x) for x in ops]), key="c03-idle-accepts")
             bl = len(d) - 6
             bl = 444 if bl >= 444 else (148 if bl >= 148 else bl)
             pend[op[1]].append((d[1] << 24 | d[2] << 16 | d[3] << 8 | d[4], d[0] & 7, bl))
@@ -186,6 +189,7 @@ def run(ctx):
     reals = SC.run_scripts(ctx, "session", scripts)
     for s, r in zip(scripts, reals):
         oracle(ctx, s, r)
+        W.refused_leaves_no_trace(ctx, s, r, "c03")
     # thread schedules on the real objects
     cases = race_cases(ctx)
     obs = {}
